@@ -29,7 +29,7 @@ ASSUMPTIONS = [
     "custom moment calculators and coordinate filters are user inputs and are shared between implementation and reference",
 ]
 REQUIRED_COUNTERS = {
-    "minkowski": 60, "msm": 60, "fourier": 60, "gsl": 60, "likelihood": 60, "moments18": 60,
+    "minkowski": 50, "msm": 50, "fourier": 50, "gsl": 50, "likelihood": 50, "moments18": 50,
     "with_filters": 40, "with_weights": 40, "ensemble_ge2": 40,
 }
 SHARDS = {"quick": 16, "thorough": 16}
@@ -37,7 +37,7 @@ KINDS = ["minkowski", "msm", "fourier", "gsl", "likelihood", "moments18"]
 
 
 def gen_cases(tier, seed):
-    n = 16 if tier == "quick" else 500
+    n = 28 if tier == "quick" else 500
     return [{"kind": k, "i": i, "seed": seed} for i in range(n) for k in KINDS]
 
 
